@@ -367,11 +367,11 @@ func floatLit(f float64) string {
 // solver portfolio
 
 type solverResult struct {
-	Verdict string  `json:"verdict"` // unsat | sat | unknown | timeout | error
-	Solver  string  `json:"solver"`
-	Time    float64 `json:"time_s"`
-	Output  string  `json:"output,omitempty"`
-	Model   string  `json:"model,omitempty"`
+	Verdict string            `json:"verdict"` // unsat | sat | unknown | timeout | error
+	Solver  string            `json:"solver"`
+	Time    float64           `json:"time_s"`
+	Output  string            `json:"output,omitempty"`
+	Model   string            `json:"model,omitempty"`
 	All     map[string]string `json:"all,omitempty"`
 }
 
